@@ -164,7 +164,27 @@ cfg_if! {
     }
 }
 
+#[cfg(feature = "hsivonen_encoding_rs_verif")]
+static VERIF_FORCE_SCALAR_UTF8: core::sync::atomic::AtomicBool =
+    core::sync::atomic::AtomicBool::new(false);
+
+/// Verification hook: when set, `utf8_valid_up_to` skips the SIMD validator
+/// so that the scalar validator below is reachable for inputs of 64 bytes or
+/// more on CPUs with SSE 4.2 / AVX2.
+#[cfg(feature = "hsivonen_encoding_rs_verif")]
+pub fn verif_force_scalar_utf8(on: bool) {
+    VERIF_FORCE_SCALAR_UTF8.store(on, core::sync::atomic::Ordering::SeqCst);
+}
+
 pub fn utf8_valid_up_to(src: &[u8]) -> usize {
+    #[cfg(feature = "hsivonen_encoding_rs_verif")]
+    let fast_utf8_valid_up_to = |s: &[u8]| -> Option<usize> {
+        if VERIF_FORCE_SCALAR_UTF8.load(core::sync::atomic::Ordering::SeqCst) {
+            None
+        } else {
+            fast_utf8_valid_up_to(s)
+        }
+    };
     if let Some(up_to) = fast_utf8_valid_up_to(src) {
         return up_to;
     }
